@@ -156,7 +156,8 @@ Section Solver.
     next_gidx : nat;
     level : nat;
     assignments : list (pkg * pa);      (* IndexMap: insertion order *)
-    queue : list (pkg * Z);             (* PriorityQueue as a map package -> priority *)
+    queue : list (pkg * (Z * VS));      (* PriorityQueue as a map package -> priority; the set the priority
+                                           was reported for is ghost state (not in the implementation) *)
     changed : nat;
     backtracked : bool;
   }.
@@ -262,10 +263,10 @@ Section Solver.
                 else [])
              (skipn (changed ps) (assignments ps)).
 
-  Definition queue_max (q : list (pkg * Z)) : option Z :=
+  Definition queue_max (q : list (pkg * (Z * VS))) : option Z :=
     match q with
     | [] => None
-    | (_, z) :: r => Some (fold_left (fun m pz => Z.max m (snd pz)) r z)
+    | (_, (z, _)) :: r => Some (fold_left (fun m pz => Z.max m (fst (snd pz))) r z)
     end.
 
   (* while dated_derivations.last().decision_level > L { pop } *)
@@ -675,14 +676,14 @@ Section Solver.
   | OPickNotMax (at_ : nat) (p : pkg).
 
   (* consume the prioritize calls of one pick, in order *)
-  Fixpoint do_prioritize (cands : list (pkg * VS)) (q : list (pkg * Z)) (tr : list event) (n : nat)
-    : (list (pkg * Z) * list event * nat) + outcome :=
+  Fixpoint do_prioritize (cands : list (pkg * VS)) (q : list (pkg * (Z * VS))) (tr : list event) (n : nat)
+    : (list (pkg * (Z * VS)) * list event * nat) + outcome :=
     match cands with
     | [] => inl (q, tr, n)
     | (p, s) :: r =>
         match tr with
         | EvPrioritize p' s' prio :: tr' =>
-            if N.eqb p p' && vs_eqb O s s' then do_prioritize r (set p prio q) tr' (S n)
+            if N.eqb p p' && vs_eqb O s s' then do_prioritize r (set p (prio, s) q) tr' (S n)
             else inr (OMismatch n 1)
         | _ => inr (OMismatch n 1)
         end
@@ -701,7 +702,7 @@ Section Solver.
 
   (* what the solver knows at one decision point: every undecided package with a positive term (and
      that term's set), the priority queue after re-prioritisation, and the index of the Choose event *)
-  Definition pick_info := (list (pkg * VS) * list (pkg * Z) * nat)%type.
+  Definition pick_info := (list (pkg * VS) * list (pkg * (Z * VS)) * nat)%type.
   Definition undecided_positive (p : psol) : list (pkg * VS) :=
     flat_map (fun '(q, a) => match ai a with ADerivations (Pos s) => [(q, s)] | _ => [] end) (assignments p).
 
@@ -742,7 +743,7 @@ Section Solver.
                         | EvChoose p s ans :: tr3 =>
                             match get p q with
                             | None => (OPickNotMax n2 p, st1, log1, n2)
-                            | Some prio =>
+                            | Some (prio, _) =>
                                 if negb (Z.eqb prio mx) then (OPickNotMax n2 p, st1, log1, n2) else
                                 let st2 := upd_ps st1 (with_queue (remove p q)) in
                                 match term_for (ps st2) p with
